@@ -517,7 +517,13 @@ type streamOutcome struct {
 	stalledEOF bool
 }
 
-func writeAll(conn *ibb.Conn, data []byte, steps []wstep) error {
+// errStop ends a writer whose case has already been decided.
+var errStop = errors.New("harness: stop")
+
+// writeAll performs the Write / Flush calls of a plan.  flushed, if not nil,
+// is called after every Flush that returned nil with the number of bytes
+// written so far.
+func writeAll(conn *ibb.Conn, data []byte, steps []wstep, flushed func(off int) error) error {
 	off := 0
 	for i, st := range steps {
 		n, err := conn.Write(data[off : off+st.N])
@@ -532,9 +538,21 @@ func writeAll(conn *ibb.Conn, data []byte, steps []wstep) error {
 			if err := conn.Flush(); err != nil {
 				return fmt.Errorf("Flush after Write #%d: %v", i, err)
 			}
+			if flushed != nil {
+				if err := flushed(off); err != nil {
+					return err
+				}
+			}
 		}
 	}
 	return nil
+}
+
+// onWire returns how many payload bytes of the stream are in the data packets
+// an end has handed to its transport so far.
+func onWire(written []byte, sid string) int {
+	_, wire, _ := checkSeq(tap(written).Data, sid)
+	return len(wire)
 }
 
 // waitOutcome says how a wait ended.
@@ -677,6 +695,24 @@ func runStream(c *core.Case, tc *transferCase, k int, p *libPair, disp map[strin
 	other := 1 - closer
 	sideName := []string{"opening", "accepting"}
 
+	// parkedReader applies the stall rule to this case's readers.
+	parkedReader := func(rd *reader, format string, a ...any) bool {
+		// only the reader in question: with two streams in one case the other
+		// stream's reader may rightly be waiting
+		var stuck []stall.Parked
+		for _, pk := range newParked(base, isReadFrame) {
+			if pk.ID == rd.goroutine() {
+				stuck = append(stuck, pk)
+			}
+		}
+		if len(stuck) == 0 {
+			return false
+		}
+		c.Violate(stall.Key(stuck[0]), "stream %d (%s, block %d): %s; it is parked:\n%s", k, sp.Carrier, sp.Block, fmt.Sprintf(format, a...), stuck[0].Stack)
+		c.Count("stalled_readers", 1)
+		return true
+	}
+
 	// role r reads what role 1-r writes
 	var rds [2]*reader
 	var werr [2]error
@@ -701,11 +737,49 @@ func runStream(c *core.Case, tc *transferCase, k int, p *libPair, disp map[strin
 		go func() {
 			defer close(wdone[r])
 			c.Guard("ibb.Conn.Write", func() {
-				werr[r] = writeAll(conns[r], data[r], sp.Dir[r].Steps)
+				// Checkpoints: when Flush has returned, every complete 3-byte group
+				// written so far is in a data packet that has been handed to the
+				// transport — not parked in some buffer until the next unrelated send
+				// — and the peer's reader can take those bytes before this side sends
+				// anything else.
+				nflush := 0
+				checkpoint := func(off int) error {
+					nflush++
+					if nflush > 2 && nflush != 5 {
+						return nil // (parsing the whole output each time would be quadratic)
+					}
+					need := off - off%3
+					if got := onWire(ends[r].conn.Written(), sid); got < need {
+						c.Violate("ibb:flush:not-delivered:"+sp.Carrier, "stream %d (%s, block %d): the %s side wrote %d bytes and Flush returned nil, but only %d of the %d complete-group bytes are in data packets handed to the transport; the rest waits for some later send",
+							k, sp.Carrier, sp.Block, sideName[r], off, got, need)
+						return errStop
+					}
+					c.Count("flush_checkpoints", 1)
+					if sp.Dir[r].SetReadBuffer != nil {
+						return nil // this direction's reader only starts when the writer is done
+					}
+					if !rds[1-r].waitCount(need, hardLimit) {
+						select {
+						case <-p.dead:
+						default:
+							if sp.Carrier == "iq" && parkedReader(rds[1-r], "checkpoint: %d bytes were flushed and acknowledged, the reader has %d", off, rds[1-r].count()) {
+								return errStop
+							}
+							c.Inconclusive("stream %d: checkpoint after %d flushed bytes: the reader has %d", k, off, rds[1-r].count())
+						}
+						return errStop
+					}
+					c.Count("flush_checkpoints_read_by_peer", 1)
+					return nil
+				}
+				werr[r] = writeAll(conns[r], data[r], sp.Dir[r].Steps, checkpoint)
 				if werr[r] == nil && r == other && !sp.NoFinalFlush {
 					// the side that will not call Close hands its buffered bytes over
 					if err := conns[r].Flush(); err != nil {
 						werr[r] = fmt.Errorf("final Flush: %v", err)
+					} else {
+						nflush = 0
+						werr[r] = checkpoint(len(data[r]))
 					}
 				}
 			})
@@ -721,6 +795,9 @@ func runStream(c *core.Case, tc *transferCase, k int, p *libPair, disp map[strin
 			undecided("the writer on the " + sideName[r] + " side did not return")
 			return false
 		}
+		if werr[r] == errStop {
+			return false // decided at a checkpoint
+		}
 		if werr[r] != nil && !mayFail {
 			select {
 			case <-p.dead:
@@ -732,24 +809,6 @@ func runStream(c *core.Case, tc *transferCase, k int, p *libPair, disp map[strin
 		}
 		return true
 	}
-	// parkedReader applies the stall rule to this case's readers.
-	parkedReader := func(rd *reader, format string, a ...any) bool {
-		// only the reader in question: with two streams in one case the other
-		// stream's reader may rightly be waiting
-		var stuck []stall.Parked
-		for _, pk := range newParked(base, isReadFrame) {
-			if pk.ID == rd.goroutine() {
-				stuck = append(stuck, pk)
-			}
-		}
-		if len(stuck) == 0 {
-			return false
-		}
-		c.Violate(stall.Key(stuck[0]), "stream %d (%s, block %d): %s; it is parked:\n%s", k, sp.Carrier, sp.Block, fmt.Sprintf(format, a...), stuck[0].Stack)
-		c.Count("stalled_readers", 1)
-		return true
-	}
-
 	if !waitWriter(closer, false) {
 		return
 	}
